@@ -44,7 +44,7 @@ Proof.
   induction pts as [|p t IH]; intros [|w ws] i it H Hit; cbn [mk_items length] in *; try discriminate; [destruct Hit|].
   destruct Hit as [<-|Hit].
   - exists p. split; [left; reflexivity|reflexivity].
-  - destruct (IH ws (S i) it ltac:(lia) Hit) as (q & A & B). exists q. split; [right; exact A|exact B].
+  - destruct (IH ws (N.succ i) it ltac:(lia) Hit) as (q & A & B). exists q. split; [right; exact A|exact B].
 Qed.
 
 (* totality (no panic, no OutOfFuel, every element written) for every variant
@@ -68,7 +68,7 @@ Proof.
            f32_fin rank32 (- 2 ^ 32) (2 ^ 32) mid_fin32 rank32_mono rank32_bounds).
   - exact HD.
   - eapply bbox32_length; exact Ebb.
-  - rewrite Forall_forall. intros it Hit. destruct (mk_items_len pts ws 0%nat it Hlen Hit) as (p & Hp & Hco).
+  - rewrite Forall_forall. intros it Hit. destruct (mk_items_len pts ws 0%N it Hlen Hit) as (p & Hp & Hco).
     split.
     + rewrite Hco, map_length. rewrite Forall_forall in HDl. apply HDl, Hp.
     + unfold vitem. unfold coords_ok in Hok. rewrite Forall_forall in Hok. apply Hok.
